@@ -9,11 +9,35 @@ RULE = ("shapes of every kind (simple bounded/unbounded, with holes, several com
         "Fraction / float coordinates) x query points: one point in every cell of the edge arrangement (slab "
         "samples), every vertex, edge midpoints and other rational points on edges, probes 0.5e-6 and 2e-6 off "
         "an edge, far points; curved stream: circles and quadratic arcs with points on a polar grid outside "
-        "the chord/arc band; non-trivial = the point lies in the bounding box of the shape; distinct = SHA-1")
+        "the chord/arc band; a third of the exact questions asked again of an object with a history (built elsewhere, asked, moved / scaled / point-reflected in place, asked after each step); non-trivial = the point lies in the bounding box of the shape; distinct = SHA-1")
 PROOF_STATUS = ("Props/C02.v: contains_point = region spec for all polygonal shapes of all kinds at every point "
                 "where the tolerance test answers the exact question (tol_exact), with jordan orientation from "
                 "the shoelace theorem; cr/wn characterisations (triangle, antisymmetry, split, reversal, "
                 "translation, scaling)")
+
+
+HISTS = [[("move", (F(-31), F(17)))], [("scale", F(-1))], [("scale", F(1, 3)), ("move", (F(5), F(-2)))],
+         [("move", (F(2), F(9))), ("scale", F(-2))], [("scale", F(-1)), ("scale", F(-1))], [("scale", F(5, 2))]]
+
+
+def _with_history(s, p, steps):
+    """the library object for shape data s reached through the in-place steps, each preceded by a query"""
+    inv = []
+    for name, arg in reversed(steps):
+        inv.append((lambda d: (lambda q: (q[0] - d[0], q[1] - d[1])))(arg) if name == "move" else (lambda k: (lambda q: (q[0] / k, q[1] / k)))(arg))
+    back = lambda q: q
+    datas = [(s, p)]
+    for f in inv:                                   # data before each step, last step first
+        datas.append((U.map_shape(datas[-1][0], f), f(datas[-1][1])))
+    datas.reverse()
+    S = I.mk_shape(datas[0][0], "frac")
+    for (name, arg), (_, q) in zip(steps, datas):
+        I.outcome(lambda: (S.contains_point(q, True), q in S))
+        if name == "move":
+            S.move(arg)
+        else:
+            S.scale(arg, arg)
+    return S
 
 
 def _pts_for(rng, s):
@@ -42,6 +66,7 @@ def cases(ctx):
     rng = ctx.rng
     nshapes = ctx.n(14, 300)
     per = ctx.n(22, 60)
+    nh = 0
     yield {"shape": ("E",), "p": (F(1), F(2)), "what": "far", "num": "frac"}
     yield {"shape": ("W",), "p": (F(1), F(2)), "what": "far", "num": "frac"}
     for i in range(nshapes):
@@ -51,6 +76,13 @@ def cases(ctx):
         pts = _pts_for(rng, s)
         for what, p in pts[:per]:
             yield {"shape": s, "p": p, "what": what, "num": num}
+        if num == "frac":
+            # the same questions about an object with a history: built elsewhere (displaced / at another size / point-
+            # reflected), asked there, brought into place by the library's own in-place move / scale, asked after each step
+            nh += 1
+            hist = HISTS[nh % len(HISTS)]
+            for what, p in pts[:per][:: 3]:
+                yield {"shape": s, "p": p, "what": what, "num": num, "hist": hist}
         # tolerance probes on one edge (long edges only)
         js = O.shape_jordans(s)
         sg = js[0][rng.randrange(len(js[0]))]
@@ -128,6 +160,11 @@ def check(ctx, case):
         # float data: points constructed on an edge are only approximately on it; compare K only
         pass
     S = I.mk_shape(s, num)
+    if case.get("hist") and s[0] not in "EW":
+        ctx.count("history:" + "+".join(n if n == "move" or a > 0 else "reflect" for n, a in case["hist"]))
+        S = _with_history(s, p, case["hist"])
+        if not U.shape_same(I.shape_data(S), s, True):
+            return [Fail(kind="O", what="in-place move / scale did not bring the shape to the expected coordinates")]
     pp = p if exact else (float(p[0]), float(p[1]))
     pex = p if exact else (F(pp[0]), F(pp[1]))
     sex = s if exact else I.shape_data(S)
